@@ -84,3 +84,16 @@ CHECKS["C10"] = dict(
     assumptions=[],
 )
 ENGINES.append(dict(name="E-HIST", path="harness/hist.cpp", serves_properties=["C01", "C02", "C10", "C12", "C13"], kind_free_text="stateless exhaustive enumeration of API histories on the real exporter in lockstep with a reference model"))
+
+CHECKS["C07"] = dict(
+    level="exploration", engine="E-GRAM",
+    technique="bounded exhaustive input enumeration on the implementation: every item of a bounded RFC 8949 grammar at every offset that splits it across the decoder's window boundary",
+    level_text="Every well-formed item of the bounded grammar (all major types, every head width incl. non-preferred, definite/indefinite/chunked strings, containers with 0..2 children to depth 3, tags) is decoded by the real CdnsDecoder at stream offset 0 and at every offset that makes it straddle the 65535-byte refill boundary (first and second refill); the matching read must return the generator's value and skip_item must leave the sentinel as the next item.",
+    level_note="Trusted: ref/cbor.hpp generator (self-checked: decode(encode(x)) re-encodes identically). Outside the bound: nesting deeper than 3, more than 2 children, negative integers below -2^63 (skip only).",
+    stages=[dict(harness="gram", variant="asan")],
+    rule="items x offsets enumerated exhaustively; each (item, offset) runs peek+matching read, read_integer, skip_item and read_array on fresh decoders; every case is distinct and non-trivial (a real decode compared with ground truth)",
+    bound_quick="reduced head-width set (preferred + widest), child alphabet thinned 1:3; offsets: 0 and every split around 65535 and 131070",
+    bound_thorough="every head width, full child alphabet, same offsets (items up to 400 bytes: every split)",
+    assumptions=["string payloads follow one byte pattern per length"],
+)
+ENGINES.append(dict(name="E-GRAM", path="harness/gram.cpp", serves_properties=["C07"], kind_free_text="grammar-bounded exhaustive input enumeration against the real decoder"))
